@@ -288,14 +288,15 @@ Definition perplexity_pre : string :=
     _target = _target[mask]
 else:
     _target = target".
-(* input (n_sample, seq_len, vocab), target (n_sample, seq_len), non-ignored labels < vocab *)
+(* input (n_sample, seq_len, vocab), target (n_sample, seq_len), non-ignored labels in [0, vocab) *)
 Definition contractb_perplexity_input_check (e : env) : bool :=
   match arg e "input", arg e "target" with
   | ATensor [n; l; _], ATensor [m; l'] =>
       Nat.eqb n m && Nat.eqb l l' && atom_def e perplexity_pre
       && match atom e "_target.numel() > 0" with            (* no token left after ignore_index: nothing to bound *)
          | Some false => true
-         | Some true => atom_false e "input.size(2) <= torch.max(_target)"
+         | Some true => atom_false e "torch.min(_target) < 0"            (* /repo fix: negative labels are rejected *)
+                        && atom_false e "input.size(2) <= torch.max(_target)"
          | None => false end
   | _, _ => false end.
 Definition c_text (e : env) : bool :=
